@@ -538,8 +538,10 @@ func (runInfo *runInfoStruct) runForSliceStmt(stmt *ast.ForStmt, value reflect.V
 
 // runForMapStmt executes a for statement over a map.
 func (runInfo *runInfoStruct) runForMapStmt(stmt *ast.ForStmt, value reflect.Value) {
-	keys := value.MapKeys()
-	for i := 0; i < len(keys); i++ {
+	// (a map iterator, not a snapshot of the keys: an entry removed by an earlier
+	// iteration is not visited, and a NaN key - which no lookup finds - is)
+	iter := value.MapRange()
+	for iter.Next() {
 		select {
 		case <-runInfo.ctx.Done():
 			runInfo.err = ErrInterrupt
@@ -548,15 +550,10 @@ func (runInfo *runInfoStruct) runForMapStmt(stmt *ast.ForStmt, value reflect.Val
 		default:
 		}
 
-		item := value.MapIndex(keys[i])
-		if !item.IsValid() {
-			// the entry was removed by an earlier iteration: as in Go it is not visited
-			continue
-		}
-		runInfo.env.DefineValue(stmt.Vars[0], keys[i])
+		runInfo.env.DefineValue(stmt.Vars[0], iter.Key())
 
 		if len(stmt.Vars) > 1 {
-			runInfo.env.DefineValue(stmt.Vars[1], item)
+			runInfo.env.DefineValue(stmt.Vars[1], iter.Value())
 		}
 
 		runInfo.stmt = stmt.Stmt
